@@ -17,6 +17,15 @@ CLAIMED = {
         note=("Trusts the quiescence barrier (kernel queues empty on both ends, two idle passes) to make one chunk = one "
               "read; streams <= ~450 bytes; 4+-way splits only byte-wise; whitespace pings not compared."),
         design_ref="§3 C03"),
+    "C05": dict(
+        category="exploration",
+        technique="complete enumeration of the finite configuration space (offered lists x disabled x preferred x credentials x protocol) against a reference function",
+        text=("The real SaslManager/Sasl2Manager::authenticate is run for every combination of ordered offered list (all subsets of 12 "
+              "names, all permutations of the small ones), disabled set, preferred mechanism, credential availability and protocol "
+              "variant (23.5 M cases quick, ~180 M thorough); the emitted mechanism attribute or mismatch error is compared with a "
+              "reference function written from the statement. The space is finite and is enumerated, not sampled."),
+        note="Non-sanitized -O2 build of the same sources; X- mechanisms without credentials only; SHA-512 vs SHA3-512 order is a don't-care.",
+        design_ref="§3 C05"),
     "C13": dict(
         category="exploration",
         technique="exhaustive enumeration of all operation sequences up to length L over the task/promise API against a reference model",
